@@ -31,8 +31,8 @@ RULE = ("case = (functional, variant {closed, wrap, names, bad}, size/seed, opti
         "(custom variants) and at least one second-order gradient was compared, or (name variants) at least two spellings were executed")
 RULE += ('; group special: unknown name with an all-zero right-hand side, closed-form callable returning one of its input objects, method entry in bck_options for every functional; a wrap callable reaching another solution than the built-in is a violation')
 MIN_NONTRIVIAL = {"quick": 200, "thorough": 1200}
-REQUIRED_COUNTERS = {"quick": {"bck_callable_orders_checked": 8, "nested_backward_solves_observed": 20, "unhashable_callable_checked": 15, "bck_unknown_name_rejected": 10, "returns_input_compared": 6, "custom_calls_observed": 150, "names_compared": 100, "second_order_compared": 150},
-                     "thorough": {"bck_callable_orders_checked": 60, "nested_backward_solves_observed": 150, "unhashable_callable_checked": 100, "bck_unknown_name_rejected": 80, "returns_input_compared": 40, "custom_calls_observed": 900, "names_compared": 600, "second_order_compared": 900}}
+REQUIRED_COUNTERS = {"quick": {"bck_callable_orders_checked": 8, "nested_backward_solves_observed": 10, "unhashable_callable_checked": 15, "bck_unknown_name_rejected": 10, "returns_input_compared": 6, "custom_calls_observed": 150, "names_compared": 100, "second_order_compared": 150},
+                     "thorough": {"bck_callable_orders_checked": 60, "nested_backward_solves_observed": 60, "unhashable_callable_checked": 100, "bck_unknown_name_rejected": 80, "returns_input_compared": 40, "custom_calls_observed": 900, "names_compared": 600, "second_order_compared": 900}}
 ASSUMPTIONS = ["well-conditioned problems (cond <= 10, contraction <= 0.5, SPD ODE matrices), float64",
                "gradient tolerance 1e-6 relative (1e-5 for solve_ivp / davidson): built-ins run with tolerances 1e-10..1e-12"]
 BUDGET = {"quick": {"worker_timeout": 900, "case_timeout": 240}, "thorough": {"worker_timeout": 3300, "case_timeout": 400}}
